@@ -45,6 +45,8 @@ Record case := {
   c_status : string;               (* implementation: returned status ("" for ENHSP) *)
   c_actions : list string;         (* implementation: returned action list, escaped *)
   c_file : option string;          (* implementation: bytes of the plan file afterwards, None if none was written *)
+  c_file_concat : bool;            (* literal compression (round 3): true = a plan file exists and its bytes are exactly the
+                                      concatenation of the returned actions (compared by the harness); [c_file] is then unused *)
   c_expect : expectation }.
 
 Record observation := { o_status : string; o_actions : list text; o_file : option text }.
@@ -55,7 +57,8 @@ Definition obs_eqb (a b : observation) : bool :=
 
 Definition impl_obs (c : case) : observation :=
   {| o_status := c_status c; o_actions := map unesc (c_actions c);
-     o_file := match c_file c with Some f => Some (unesc f) | None => None end |}.
+     o_file := if c_file_concat c then Some (List.concat (map unesc (c_actions c)))
+               else match c_file c with Some f => Some (unesc f) | None => None end |}.
 
 Definition status_str (s : status) : string :=
   match s with StOk => "ok" | StNoSolution => "no-solution" | StTimeout => "timeout" end.
@@ -176,3 +179,70 @@ Definition show_obs (o : observation) := (o_status o, map t2s (o_actions o), mat
 Definition explain (k : consts) (c : case) :=
   (consts_ok k, show_obs (model_obs c), show_obs (impl_obs c),
    if c_enhsp c then [] else map t2s (oracle_actions (unesc (c_text c)))).
+
+(* ------------------------------------------------------------------------------------------------
+   LARGE logs / plan files (> 64 KiB; round 3, seeded change C19_D): the text crosses as segments
+   (Corr.BigText.expand), the action list and the plan file as digests (Corr.BigText.digest_texts).
+   [b_joined] is the digest of the concatenation of the returned actions (computed by the harness from the
+   returned list): the file written must be exactly that. *)
+From Coq Require Import Uint63.
+From Verif Require Import Corr.BigText.
+
+Inductive bexpectation :=
+| BExpPlan (actions : digest_t)              (* digest of the expected action list (the generator knows the plan) *)
+| BExpNoPlan (nosol : bool)
+| BExpNone.
+
+Record bigcase := {
+  b_enhsp : bool;
+  b_segs : list seg;
+  b_status : string;
+  b_actions : digest_t;             (* implementation: digest of the returned action list *)
+  b_joined : digest_t;              (* digest of the one-element list [concatenation of the returned actions] *)
+  b_file : option digest_t;         (* implementation: digest of [bytes of the plan file], None if none was written *)
+  b_expect : bexpectation }.
+
+Definition odigest_eqb (a b : option digest_t) : bool := opt_eqb digest_eqb a b.
+
+Definition file_digest (f : option text) : option digest_t :=
+  match f with Some t => Some (digest_texts [t]) | None => None end.
+
+Definition judge_big (k : consts) (c : bigcase) : verdict :=
+  let t := expand (b_segs c) in
+  if b_enhsp c then
+    let acts := enhsp_parse_plan_content t in
+    {| v_agree := String.eqb (b_status c) "" && digest_eqb (digest_texts acts) (b_actions c) &&
+                  odigest_eqb (Some (digest_texts [List.concat acts])) (b_file c);
+       v_ok := odigest_eqb (b_file c) (Some (b_joined c)) &&
+               match b_expect c with BExpPlan d => digest_eqb d (b_actions c) | _ => true end;
+       v_known := false |}
+  else
+    let r := get_solving_status t in
+    let oracle := oracle_actions t in
+    {| v_agree := consts_ok k && String.eqb (status_str (fst r)) (b_status c) &&
+                  digest_eqb (digest_texts (snd r)) (b_actions c) &&
+                  odigest_eqb (file_digest (parse_plan_file t)) (b_file c);
+       v_ok := (if substring_b marker t
+                then String.eqb (b_status c) "ok" && digest_eqb (digest_texts oracle) (b_actions c) &&
+                     odigest_eqb (b_file c) (file_digest (file_of oracle))
+                else (String.eqb (b_status c) "no-solution" || String.eqb (b_status c) "timeout") &&
+                     digest_eqb (digest_texts []) (b_actions c)) &&
+               (if (digest_count (b_actions c) =? 0)%uint63 then true else odigest_eqb (b_file c) (Some (b_joined c))) &&
+               match b_expect c with
+               | BExpPlan d => String.eqb (b_status c) "ok" && digest_eqb d (b_actions c)
+               | BExpNoPlan nosol => String.eqb (b_status c) (if nosol then "no-solution" else "timeout") &&
+                                     digest_eqb (digest_texts []) (b_actions c)
+               | BExpNone => true
+               end;
+       v_known := false |}.
+
+Definition run_big (k : consts) (cases : list bigcase) : string := summary (judge_big k) cases.
+
+Definition explain_big (k : consts) (c : bigcase) :=
+  let t := expand (b_segs c) in
+  if b_enhsp c then
+    (consts_ok k, "", digest_texts (enhsp_parse_plan_content t), Some (digest_texts [enhsp_plan_file t]),
+     map t2s (firstn 3 (enhsp_parse_plan_content t)))
+  else
+    (consts_ok k, status_str (fst (get_solving_status t)), digest_texts (snd (get_solving_status t)),
+     file_digest (parse_plan_file t), map t2s (firstn 3 (oracle_actions t))).
